@@ -15,10 +15,11 @@ func main() {
 	bin := flag.String("gw", "/verif/.cache/bin/versitygw", "")
 	work := flag.String("work", "/tmp/probe-work", "")
 	vers := flag.Bool("versioning", false, "")
+	side := flag.Bool("sidecar", false, "")
 	flag.Parse()
 	os.RemoveAll(*work)
 	os.MkdirAll(*work, 0o755)
-	cfg, err := gw.NewStorage(gw.Config{Bin: *bin, Work: *work}, *vers, false)
+	cfg, err := gw.NewStorage(gw.Config{Bin: *bin, Work: *work}, *vers, *side)
 	if err != nil {
 		panic(err)
 	}
